@@ -109,8 +109,18 @@ func main() {
 			fmt.Fprintf(os.Stderr, "%s: paths=%d decisions=%d obligations=%d/%d violations=%d inconclusive=%d solver(sat=%d unsat=%d unknown=%d %.1fs) wall=%.1fs\n",
 				n, r.Paths, r.Decisions, r.Discharged, r.Obligations, len(r.Violations), len(r.Inconclusive),
 				r.Solver.Sat, r.Solver.Unsat, r.Solver.Unknown, r.Solver.Time.Seconds(), r.Wall.Seconds())
+			cnt := map[string]int{}
 			for _, v := range r.Violations {
-				fmt.Fprintf(os.Stderr, "  VIOL %s [%s] known=%v outside=%v %s model=%v\n", v.Label, v.Kind, v.Known, v.Outside, v.Detail, v.Model)
+				key := fmt.Sprintf("%s [%s] known=%v outside=%v %s", v.Label, v.Kind, v.Known, v.Outside, v.Detail)
+				cnt[key]++
+				if cnt[key] <= 2 {
+					fmt.Fprintf(os.Stderr, "  VIOL %s model=%v\n", key, v.Model)
+				}
+			}
+			for k, n := range cnt {
+				if n > 2 {
+					fmt.Fprintf(os.Stderr, "  VIOL (x%d) %s\n", n, k)
+				}
 			}
 			for _, s := range r.Inconclusive {
 				fmt.Fprintf(os.Stderr, "  INCONCLUSIVE %s\n", s)
